@@ -656,7 +656,7 @@ Lemma fresh_ok_spec : forall rho fn' body' t, fresh_ok V rho fn' body' t = true 
 Proof.
   intros rho fn' body' t H Hnw z Hz. unfold fresh_ok in H. rewrite Hnw in H. rewrite forallb_forall in H.
   assert (Hf : filter (fun z0 : ident => negb (mem z0 [])) (block_targets body') = block_targets body').
-  { clear. induction (block_targets body'); cbn; congruence. }
+  { generalize (block_targets body') as l. induction l as [|a l IHl]; [reflexivity|]. cbn [filter mem negb]. f_equal. exact IHl. }
   rewrite Hf in H.
   specialize (H z Hz). apply negb_true_iff in H. apply mem_false_In. exact H.
 Qed.
